@@ -58,6 +58,11 @@ def rules():
                     is_array, nullable, inner, _ = __import__("kv.kref", fromlist=["x"]).split_annotation(__import__("kv.kref", fromlist=["x"]).field_type(c, f))
                     if not F.default_inhabits(v, is_array, nullable, inner):
                         bad_default.append(f"{r['cid']}.{f.name}: default {v!r} does not inhabit the type")
+                    # KIP-482, computed independently of kio.serial (kv.kref): the declared default, else the zero value of
+                    # the type; for a struct the struct of ITS fields' declared-else-zero defaults
+                    want = __import__("kv.kref", fromlist=["x"]).implicit_default(c, f)
+                    if not (v == want and type(v) is type(want)):
+                        bad_default.append(f"{r['cid']}.{f.name}: tagged default {v!r} is not the declared-else-zero default {want!r}")
                 except Exception as e:
                     bad_default.append(f"{r['cid']}.{f.name}: {type(e).__name__}: {e}")
         for nullable in (False, True):
